@@ -40,6 +40,8 @@ class Run:
         self.distinct = 0
         self.rule = ""
         self.exhaustive = False
+        self.defer = False
+        self.pending = []
 
     # ---------------- environment ----------------
     def goenv(self):
@@ -169,6 +171,9 @@ class Run:
     # ---------------- verdict ----------------
     def finish(self, violations, level="model_checking", extra_cov=None):
         """violations: list of dict(prop, key, replay(dict) ...) for THIS property only."""
+        if self.defer:
+            self.pending += violations
+            return 0
         known, fixed = load_findings()
         new, seen_known = [], {}
         for v in violations:
